@@ -181,7 +181,7 @@ func renderNode(v Value, seen map[*Obj]bool, depth int) string {
 	if !ok || o == nil {
 		return ""
 	}
-	if seen[o] || depth > 50 {
+	if seen[o] || depth > 1000 {
 		return "<cycle>"
 	}
 	seen[o] = true
@@ -205,6 +205,52 @@ func renderNode(v Value, seen map[*Obj]bool, depth int) string {
 	return fmt.Sprintf("%v[%v,%v](%s)", tok.field("pegRule").v, tok.field("begin").v, tok.field("end").v, strings.Join(ks, " "))
 }
 
+// wideAndDeepTrees: derivations beyond the small scope in the two directions the
+// reconstruction can depend on — the number of siblings pending when their parent's
+// token arrives (9 … 130, the first child starting where the parent starts or one
+// later, the parent alone or behind an earlier sibling under a root, empty tokens
+// among the siblings) and the nesting depth (chains of 70 and 300 with equal or
+// shrinking spans).
+func wideAndDeepTrees() []*dnode {
+	var out []*dnode
+	for _, k := range []int{9, 10, 16, 17, 33, 65, 130} {
+		for _, pre := range []int{0, 1} {
+			for _, empties := range []bool{false, true} {
+				for _, under := range []bool{false, true} {
+					base := 0
+					if under {
+						base = 2
+					}
+					p := &dnode{begin: base}
+					at := base + pre
+					for i := 0; i < k; i++ {
+						if empties && i%3 == 1 {
+							p.kids = append(p.kids, &dnode{begin: at, end: at})
+						}
+						p.kids = append(p.kids, &dnode{begin: at, end: at + 1})
+						at++
+					}
+					p.end = at
+					if under {
+						p = &dnode{begin: 0, end: at + 1, kids: []*dnode{{begin: 0, end: 1}, {begin: 1, end: 2}, p, {begin: at, end: at + 1}}}
+					}
+					out = append(out, p)
+				}
+			}
+		}
+	}
+	for _, depth := range []int{70, 300} {
+		for _, shrink := range []int{0, 1} {
+			inner := &dnode{begin: depth * shrink, end: depth*shrink + 1}
+			for d := depth - 1; d >= 0; d-- {
+				inner = &dnode{begin: d * shrink, end: 2*depth*shrink + 1 - d*shrink, kids: []*dnode{inner}}
+			}
+			out = append(out, inner)
+		}
+	}
+	return out
+}
+
 // rtASTSemantics: R-ast-semantics.
 func rtASTSemantics(a *aggregator, v *rtView, budget int) {
 	cfg := v.in.Name
@@ -223,6 +269,7 @@ func rtASTSemantics(a *aggregator, v *rtView, budget int) {
 	var next int
 	shapes := genTrees(budget, 0, &next)
 	// also every shape shifted by one (offset 0 is not special, but cheap to include)
+	shapes = append(shapes, wideAndDeepTrees()...)
 	n := 0
 	var bad []string
 	und := ""
@@ -295,7 +342,7 @@ func rtASTSemantics(a *aggregator, v *rtView, budget int) {
 		bad = append(bad[:3], fmt.Sprintf("… %d more", len(bad)-3))
 	}
 	a.Decide(len(bad) == 0, "R-ast-semantics", construct, cfg, pos,
-		fmt.Sprintf("%d derivation shapes of at most %d nodes (empty and one-rune leaves, gaps before/between/after children, parent and child with the same span): the node graph returned is the tree of non-empty tokens with children in input order", n, budget), strings.Join(bad, "; "))
+		fmt.Sprintf("%d derivation shapes: all of at most %d nodes (empty and one-rune leaves, gaps before/between/after children, parent and child with the same span), parents of 9 to 130 siblings (first child at the parent's begin or behind it, empty tokens between siblings, alone or under a root) and chains 70 and 300 deep: the node graph returned is the tree of non-empty tokens with children in input order", n, budget), strings.Join(bad, "; "))
 }
 
 // ---------------------------------------------------------------------------
@@ -714,6 +761,16 @@ func rtPrintSemantics(a *aggregator, v *rtView, budget int) {
 		}
 		return write(it, fmt.Sprint(gv...))
 	}
+	it.natives["io.WriteString"] = func(it *Interp, args []Value) []Value {
+		if args[0] != Value(writer) {
+			panic(undecided{"io.WriteString to another writer"})
+		}
+		s, ok := args[1].(string)
+		if !ok {
+			panic(undecided{"io.WriteString of a value that is not a string"})
+		}
+		return write(it, s)
+	}
 	it.natives["fmt.Fprintf"] = func(it *Interp, args []Value) []Value {
 		if args[0] != Value(writer) {
 			panic(undecided{"fmt.Fprintf to another writer"})
@@ -736,6 +793,7 @@ func rtPrintSemantics(a *aggregator, v *rtView, budget int) {
 		}
 		shapes = append(shapes, inner)
 	}
+	shapes = append(shapes, wideAndDeepTrees()...)
 	var bad []string
 	n := 0
 	for _, sh := range shapes {
@@ -808,7 +866,7 @@ func rtPrintSemantics(a *aggregator, v *rtView, budget int) {
 		bad = append(bad[:3], fmt.Sprintf("… %d more", len(bad)-3))
 	}
 	a.Decide(len(bad) == 0 && n > 100, "R-print-semantics", construct, cfg, pos,
-		fmt.Sprintf("%d derivations over a text with 2-, 3- and 4-byte runes, a quote and a newline: plus chains of depth 12, 70 and 300: the printed tree is the pre-order list of non-empty tokens, one per line, indented by depth, each with its rule's name and the quoted runes [begin,end)", n), strings.Join(bad, "; "))
+		fmt.Sprintf("%d derivations over a text with 2-, 3- and 4-byte runes, a quote and a newline: plus chains of depth 12, 70 and 300 and parents of 9 to 130 siblings: the printed tree is the pre-order list of non-empty tokens, one per line, indented by depth, each with its rule's name and the quoted runes [begin,end)", n), strings.Join(bad, "; "))
 }
 
 // routeSemantics evaluates the syntax-tree printers of the token list and of
